@@ -173,10 +173,15 @@ fn mutate_bytes(t: &mut Tape, mut bytes: Vec<u8>, labels: &mut Vec<&'static str>
             labels.push("bytes:insert");
         }
         4 => {
-            let mut v = vec![0xEF, 0xBB, 0xBF];
+            // one UTF-8 byte order mark, sometimes two or three in a row
+            let n = *t.pick(&[1usize, 1, 1, 2, 2, 3]);
+            let mut v = Vec::new();
+            for _ in 0..n {
+                v.extend([0xEF, 0xBB, 0xBF]);
+            }
             v.extend(bytes);
             bytes = v;
-            labels.push("enc:utf8-bom");
+            labels.push(if n == 1 { "enc:utf8-bom" } else { "enc:utf8-bom-repeated" });
         }
         5 | 6 => {
             let le = t.coin();
@@ -570,7 +575,7 @@ pub fn property() -> Property {
         subchecks: vec![
             SubCheck {
                 name: "mutated-texts",
-                rule: "base = rendered G-MAP (realistic or adversarial) | one of the 4 fixture maps trimmed to 80 objects | raw noise of 0/1/2/3/17/200 bytes; then 1-6 line-level mutations (delete/duplicate/swap/shuffle window/move across sections/truncate/insert section header/insert/remove/duplicate/replace a '|'-separated sub-field of a slider path or edge-sound list (type letters, points, garbage)/replace one comma field by a limit token such as NaN, inf, 1e999, 2147483648, 131073, 9001, empty, garbage), CRLF, then a byte/encoding mutation (bit flips, truncation also mid-UTF-8, insertion, UTF-8 BOM, UTF-16 LE/BE with BOM also odd length, invalid UTF-8). Oracle: from_bytes never panics and fails only with io::Error; on Ok: objects non-decreasing by start time, one sound per object, control points strictly increasing (total_cmp), every number finite and inside its documented clamp (AR/OD/HP/CS, slider multiplier/tick rate, beat_len, slider_velocity, bpm_multiplier, scroll_speed, |x|,|y|<=131072 integral, |t|<=2^31, durations>=0, repeats<=8999, expected_dist in (0,131072], break end>=start); from_bytes == from_str (valid UTF-8) == from_path (1/8 of cases, temp file), errors compared by io::ErrorKind. Non-trivial: >=1 mutation applied and the result decodes to >=2 objects or control points.",
+                rule: "base = rendered G-MAP (realistic or adversarial) | one of the 4 fixture maps trimmed to 80 objects | raw noise of 0/1/2/3/17/200 bytes; then 1-6 line-level mutations (delete/duplicate/swap/shuffle window/move across sections/truncate/insert section header/insert/remove/duplicate/replace a '|'-separated sub-field of a slider path or edge-sound list (type letters, points, garbage)/replace one comma field by a limit token such as NaN, inf, 1e999, 2147483648, 131073, 9001, empty, garbage), CRLF, then a byte/encoding mutation (bit flips, truncation also mid-UTF-8, insertion, one to three UTF-8 BOMs, UTF-16 LE/BE with BOM also odd length, invalid UTF-8). Oracle: from_bytes never panics and fails only with io::Error; on Ok: objects non-decreasing by start time, one sound per object, control points strictly increasing (total_cmp), every number finite and inside its documented clamp (AR/OD/HP/CS, slider multiplier/tick rate, beat_len, slider_velocity, bpm_multiplier, scroll_speed, |x|,|y|<=131072 integral, |t|<=2^31, durations>=0, repeats<=8999, expected_dist in (0,131072], break end>=start); from_bytes == from_str (valid UTF-8) == from_path (1/8 of cases, temp file), errors compared by io::ErrorKind. Non-trivial: >=1 mutation applied and the result decodes to >=2 objects or control points.",
                 quick: 40_000,
                 thorough: 800_000,
                 tape_len: 1700,
